@@ -331,6 +331,44 @@ PROPS = {
         required_hook_hits=["pool.submit_or_spawn.accepted", "pool.worker.timed_out", "pool.worker.loop_top"],
         min_evaluations=2000,
     ),
+    "C32": dict(
+        technique="generation-marked catalogs and key sets swapped while reader threads query; per-response oracle: all markers "
+                  "equal (one snapshot), logical-clock freshness window [published-before-call, started-after-call], TSIG outcome "
+                  "consistent with one key set; failpoints (verif_hooks) perform swaps inside requests on the handling thread; "
+                  "ThreadSanitizer and Miri builds of the same workload",
+        rule="each history: 2-12 reader threads (half TSIG-signing with the key generation they last saw) against one Server "
+             "while a swapper alternates set_catalog / set_tsig_keys over up to 300 generations with pauses 0/20/200 us; "
+             "failpoint mode 0 (none), 1 (catalog swap inside every third request right after the snapshot / before dispatch), "
+             "2 (key-set swap before dispatch). evaluations = responses judged; evidence: responses overlapping a swap, "
+             "in-request swaps, signed answers verified, BADKEY responses, failpoint hit counts. distinct = (readers, failpoint "
+             "mode, generations published, overlap seen, signed ok seen, BADKEY seen)",
+        assumptions=COMMON_ASSUMPTIONS + ["freshness is judged with logical clocks only (no wall-clock): a response generation g must satisfy published-before <= g <= started-after"],
+        quick=plans(dict(build="dbg", nshards=16, parallel=4), dict(build="miri", nshards=2, timeout=900)),
+        thorough=plans(dict(build="dbg", nshards=16, parallel=4), dict(build="rel", nshards=16, parallel=4),
+                       dict(build="tsan", nshards=8, parallel=2, scale=0.2), dict(build="miri", nshards=8, timeout=3400, miriflags="-Zmiri-many-seeds=0..4")),
+        required_hook_hits=["server.after_catalog_snapshot", "server.before_dispatch"],
+        min_evaluations=100000,
+    ),
+    "C30": dict(
+        technique="the real BlockingIoProvider and TokioIoProvider run in-process on loopback sockets; reference = "
+                  "Server::handle_message called directly on the same server; byte-stream oracle for TCP (exact concatenation of "
+                  "length-prefixed responses up to the first response-less request, then EOF) and per-datagram oracle for UDP",
+        rule="provider instances (blocking with 0/1/4 base workers, linger 0/1 s, 1-2 UDP workers; Tokio multi-thread runtime; "
+             "IPv4 and IPv6; bound to the loopback address or to the wildcard address, which exercises the packet-info path) x "
+             "12 (quick) / 60 (thorough) TCP and UDP batches each. TCP batch: 1-20 pipelined requests (valid, malformed, "
+             "response-less: QR set, < 12 octets, QDCOUNT 2, mostly last, sometimes in the middle) written whole / octet by "
+             "octet / 1-3 octets / 1-700 octets per segment with delays up to 50 ms (read timeout is 5 s). UDP batch: 1-3 "
+             "client sockets x 1-6 datagrams with unique IDs; every datagram received must come from the server address, match "
+             "an outstanding ID once, equal the reference response and fit the payload size; missing datagrams are not "
+             "violations. distinct = (provider, batch shape) classes",
+        assumptions=COMMON_ASSUMPTIONS + [
+            "timeouts of the harness (connect 5 s, read 8 s) make a batch inconclusive, never violated",
+            "nightly builds (ASan/TSan) exclude the Tokio provider: proc-macro2 1.0.51 does not compile on the nightly toolchain"],
+        quick=plans(dict(build="dbg", nshards=16)),
+        thorough=plans(dict(build="dbg", nshards=16), dict(build="rel", nshards=16), dict(build="asan", nshards=8, scale=0.25),
+                       dict(build="tsan", nshards=8, scale=0.25), dict(build="vg", nshards=8, scale=0.06, timeout=3400)),
+        min_evaluations=300,
+    ),
     "C14": dict(
         technique="differential execution against an independent RFC 1035 §4.1.4 decoder; panic monitor; Miri/ASan on the same workload",
         rule="exhaustive: every buffer of length <= 5 over the 12 significant octets {0,1,2,3,63,64,0x80,0xbf,0xc0,0xc1,0xff,'a'} "
